@@ -713,7 +713,7 @@ func (r *EngineRunner) Exec(f []string) (res string) {
 		return r.hintCheck()
 	case "open2", "openchild", "openbad", "openrace":
 		return r.execLock(f)
-	case "concsched", "concpark", "concstress":
+	case "concsched", "concpark", "concstress", "concmix":
 		return r.execConc(f)
 	case "flipsweep": // E flipsweep <maxflips> <seed> <cfg 6 fields>
 		return r.flipSweep(f[4:10], atoi(f[2]), NewRng(uint64(atou(f[3]))))
@@ -818,6 +818,11 @@ func RunEngineScript(lines []string, w *bufio.Writer, verbose bool) error {
 			fmt.Fprintf(w, "%s => %s\n", ln, res)
 		}
 		emit()
+		if res == "err stuck" {
+			// clients are blocked inside the engine: nothing more can be run in this process
+			_ = w.Flush()
+			os.Exit(7)
+		}
 	}
 	return nil
 }
